@@ -302,6 +302,12 @@ func (g *GW) MustStatus(r *Resp, want int, what string) {
 // SDK's own signer the way a client does it (UNSIGNED-PAYLOAD, host as the only signed header).
 func (g *GW) Presign(c Cred, method, target string, expires int, at time.Time) string {
 	g.T.Helper()
+	return g.PresignHdr(c, method, target, expires, at, nil)
+}
+
+// PresignHdr is Presign with request headers that are part of the signature (they have to be sent with the request).
+func (g *GW) PresignHdr(c Cred, method, target string, expires int, at time.Time, hdr map[string]string) string {
+	g.T.Helper()
 	sep := "?"
 	if strings.Contains(target, "?") {
 		sep = "&"
@@ -309,6 +315,9 @@ func (g *GW) Presign(c Cred, method, target string, expires int, at time.Time) s
 	req, err := http.NewRequest(method, "http://"+g.Addr+target+sep+"X-Amz-Expires="+fmt.Sprint(expires), nil)
 	if err != nil {
 		g.T.Fatalf("presign: %v", err)
+	}
+	for k, v := range hdr {
+		req.Header.Set(k, v)
 	}
 	uri, _, err := sdkv4.NewSigner().PresignHTTP(context.Background(), aws.Credentials{AccessKeyID: c.Access, SecretAccessKey: c.Secret},
 		req, "UNSIGNED-PAYLOAD", "s3", g.Region, at, func(o *sdkv4.SignerOptions) { o.DisableURIPathEscaping = true })
